@@ -10,7 +10,7 @@ CFG = dict(
                "sync.Once: body runs once and every caller reads its value); concurrent create-exclusive temp files get distinct, "
                "fresh names and overwrite nothing (and without O_EXCL they can collide). The lock discipline itself is "
                "re-established on every run by vm_compute on the event lists lockscan extracts from /repo's current source "
-               "(profile, internal/driver, internal/binutils), together with the obligation that every read-modify-write of "
+               "(profile, internal/driver, internal/binutils, internal/transport, internal/report, internal/graph), together with the obligation that every read-modify-write of "
                "a guarded variable (configure, temp-file registry, copy-on-write tool configuration) lies in ONE acquire..release region, "
                "including check-then-act / snapshot-then-reset patterns; the temp-file registry never loses a registered file.",
     level_note="partial by nature: the theorems are about the lock discipline extracted syntactically from the source "
@@ -23,7 +23,10 @@ CFG = dict(
     translators=[("lockscan", "Gen/Gen_LockEvents.v")],
     extra=["c20hooks.race_stress"],
     shard=120,
-    rule="cases = concurrent runs of: k newTempFile calls on a directory whose taken names belong to files of six kinds (fresh/old, empty/with data, "
+    rule="end-to-end: driver.PProf with a real flag set and the DEFAULT transport on 2-8 sources of mixed kinds (http, https+insecure, https with an "
+         "untrusted certificate, files) with the -proto output re-read; 2-3 perf.data inputs converted by a fake perf_to_profile with staggered "
+         "overlapping conversions; interactive sessions with rejected assignments followed by redirected commands; a FRESH child process whose "
+         "first k web requests arrive together (exit status and HTTP statuses); cases = concurrent runs of: k newTempFile calls on a directory whose taken names belong to files of six kinds (fresh/old, empty/with data, "
          "directory, dangling symlink), creators writing their own payload; first uses of a fresh Binutils overlapped with a setter; concurrent ObjAddr after a FAILED first use; 2-3 threads of "
          "get/set/configure on the option store (all interleavings enumerated in Coq); k goroutines configuring DISTINCT options and "
          "reading their own option back (lost-update detector); accepted/rejected configure sequences followed by option reads, "
@@ -37,7 +40,9 @@ CFG = dict(
     trusted_base=["translator lockscan (go/parser + go/ast; syntactic type resolution; fail-closed GBad on shapes it cannot linearise)",
                   "Go memory model, sync.Mutex / sync.Once / sync.WaitGroup semantics, os.OpenFile(O_EXCL), os.Rename",
                   "Go race detector (dynamic exploration only)"],
-    assumptions=["one abstract instance per guarded field (a lock taken through receiver x guards the fields reached from x)",
+    assumptions=["end-to-end streams: the https server's certificate is one the default client does not trust; perf_to_profile is a scripted stand-in "
+                 "(0.25 s, refuses an existing output without -f); pages of concurrent web requests are counted, not judged",
+                 "one abstract instance per guarded field (a lock taken through receiver x guards the fields reached from x)",
                  "constructors and Close run while the object is not shared (listed in gen_exempt with the reason)",
                  "decode side of package profile runs on fresh objects (checked syntactically for unmarshal's argument)"],
 )
